@@ -185,14 +185,25 @@ fn translate_head(
             context,
         ),
         SExp::Atom(l, v) => match prim_map.get(v) {
-            None => translate_head(
-                allocator,
-                runner,
-                prim_map,
-                l.clone(),
-                Rc::new(SExp::Integer(l.clone(), number_from_u8(v))),
-                context,
-            ),
+            None => {
+                let as_number = number_from_u8(v);
+                if u8_from_number(as_number.clone()) != *v {
+                    // An operator atom with a redundant leading byte (0x0010)
+                    // is not that operator (0x10) for clvm_rs.
+                    return Err(RunFailure::RunErr(
+                        l.clone(),
+                        format!("unimplemented operator {sexp}"),
+                    ));
+                }
+                translate_head(
+                    allocator,
+                    runner,
+                    prim_map,
+                    l.clone(),
+                    Rc::new(SExp::Integer(l.clone(), as_number)),
+                    context,
+                )
+            }
             Some(v) => Ok(Rc::new(v.with_loc(l.clone()))),
         },
         // An integer head is already an opcode.  It must not be looked up by
